@@ -297,8 +297,9 @@ class DiscreteMultiVariable(Variable):
     def randomize(self):
         return [v.randomize() for v in self._children]
 
-    def get_bounds(self) -> list[tuple[int, int]]:
-        return [v.get_bounds() for v in self._children]
+    def get_bounds(self) -> tuple[list[int], list[int]]:
+        bounds = [v.get_bounds() for v in self._children]
+        return [lb for lb, _ in bounds], [ub for _, ub in bounds]
 
     def correct(self, value: list):
         return [v.correct(value[idx]) for idx, v in enumerate(self._children)]
